@@ -3,7 +3,7 @@
 E2 bounded grammar enumeration on the real Substance class.  Four disjoint strata:
 
   species    every species of the isotope table (118 elements x {unspecified, every tabulated isotope} x charge
-             suffix {none,+,-,+2,-3} and, where |q| <= Z, the two-digit charges {+10,-10,-12,+26,-Z}; nucleons, D, T)
+             suffix {none,+,-,+2,-3,+0,-0} and, where |q| <= Z, the two-digit charges {+10,-10,-12,+26,-Z}; nucleons, D, T)
              alone and inside a two-species formula, both isotope modes;
   pair       every ordered pair of the 11-species structure alphabet x counts {none,2,3,12} x separator
              {juxtaposed, blank, ' + '} (explicit ' * n' counts where both neighbours are explicit);
@@ -62,7 +62,7 @@ ALPHABET = ["H", "O", "C", "Ca", "Cl", "Na", "D", "[e]", "O{17}", "Fe{56+3}", "O
 BASE = ["H", "O", "C", "Ca", "Cl", "Na"]                 # default species of leaf i
 SUBS = ["D", "[e]", "O{17}", "Fe{56+3}", "O{-2}", "H", "O"]   # substitution alphabet (H/O give repeated species)
 COUNTS = [2, 3, 12]
-QSUFFIX = [None, "+", "-", "+2", "-3"]
+QSUFFIX = [None, "+", "-", "+2", "-3", "+0", "-0"]      # an explicitly written zero charge in both signs included
 # charge numbers of two digits (only where |q| <= Z, i.e. between the bare nucleus and a doubled shell); "-Z" is the
 # fully stripped ion of every element with Z >= 10 (Fe{56-26}, U{238-92})
 QSUFFIX2 = ["+10", "-10", "-12", "+26", "-Z"]
@@ -780,7 +780,7 @@ def finish(total, tier, seed):
         history_bounds=dict(starts=sorted(HIST_STARTS), operations=HIST_OPS, depth=HDEPTH[tier],
                             bystanders=sorted(BYSTANDERS),
                             isotope_modes=["natural", "abundant"], pruning="none (every history executed)"),
-        bounds=dict(species="118 elements x {unspecified, each of 354 tabulated isotopes} x charge {none,+,-,+2,-3,"
+        bounds=dict(species="118 elements x {unspecified, each of 354 tabulated isotopes} x charge {none,+,-,+2,-3,+0,-0,"
                             "+10,-10,-12,+26,-Z (two-digit ones where |q|<=Z)} "
                             "+ [p] [n] [e] D T; each alone, counted and as left/right neighbour",
                     pair="11 x 11 species x counts {none,2,3,12} x separators {'',' ',' + '} (+ explicit ' * n')",
@@ -801,7 +801,7 @@ def finish(total, tier, seed):
 
 MANIFEST = dict(
     text="Bounded-exhaustive enumeration of molecular formulas on the real Substance class against an expansion of the "
-         "generating AST: every species of the isotope table (118 elements, 354 isotopes, 5 one-digit and 5 two-digit charge suffixes, nucleons, "
+         "generating AST: every species of the isotope table (118 elements, 354 isotopes, 7 one-digit (incl. +0, -0) and 5 two-digit charge suffixes, nucleons, "
          "D, T; alone, counted, as left/right neighbour; both isotope modes), every ordered pair of an 11-species "
          "alphabet x counts x separators, every formula shape up to 5 species occurrences / 3 groups / nesting 3 with "
          "<= 1 decoration and up to 4 / 2 / 2 with <= 2 decorations (count, blank or explicit '+', explicit '* n', "
